@@ -93,6 +93,10 @@ pub struct ScopeCase {
     /// cancel-orders flavour
     #[serde(default)]
     pub dead_links: u8,
+    /// bit e set: exchange index e is tracked for market data only — no execution link (an empty slot
+    /// in the link table, as `ExecutionBuilder::build` leaves it), hence no orders and no position
+    #[serde(default)]
+    pub data_only: u8,
 }
 
 type ScopeEngine = Engine<TestClock, DefaultState, MultiExchangeTxMap<UnboundedTx<ExecutionRequest>>, DefaultStrategy<DefaultState>, DefaultRiskManager<DefaultState>>;
@@ -147,7 +151,8 @@ fn build_state(case: &ScopeCase) -> (barter_instrument::index::IndexedInstrument
         let key = InstrumentIndex(i);
         let exchange = indexed.instruments()[i].value.exchange.key;
         let st = state.instruments.instrument_index_mut(&key);
-        for (k, o) in spec.orders.iter().enumerate() {
+        let data_only = case.data_only & (1 << exchange.index()) != 0;
+        for (k, o) in spec.orders.iter().enumerate().filter(|_| !data_only) {
             // ids are unique per instrument; with `shared_cids` every instrument numbers its own
             // orders o0, o1, .. so that instruments share ids
             let cid = ClientOrderId::new(if case.shared_cids { format!("o{k}") } else { format!("i{i}-o{k}") });
@@ -206,6 +211,7 @@ fn build_state(case: &ScopeCase) -> (barter_instrument::index::IndexedInstrument
             })
         };
         st.position.current = match spec.position {
+            _ if data_only => None,
             PosSpec::Flat => None,
             PosSpec::Long(q) => Some(pos(Side::Buy, q)),
             PosSpec::Short(q) => Some(pos(Side::Sell, q)),
@@ -276,8 +282,8 @@ impl Check for CommandScope {
 
 
     fn strategy(_tier: Tier) -> BoxedStrategy<ScopeCase> {
-        (simple_world(2..=3, 1..5), prop::collection::vec(inst_spec(), 1..8), strat::filter_spec(), any::<bool>(), prop::bool::weighted(0.4), prop_oneof![4 => Just(0u8), 1 => 1u8..8])
-            .prop_map(|(defs, instruments, filter, close_positions, shared_cids, dead_links)| ScopeCase { defs, instruments, filter, close_positions, shared_cids, dead_links })
+        (simple_world(2..=3, 1..5), prop::collection::vec(inst_spec(), 1..8), strat::filter_spec(), any::<bool>(), prop::bool::weighted(0.4), prop_oneof![4 => Just(0u8), 1 => 1u8..8], prop_oneof![3 => Just(0u8), 1 => 1u8..8])
+            .prop_map(|(defs, instruments, filter, close_positions, shared_cids, dead_links, data_only)| ScopeCase { defs, instruments, filter, close_positions, shared_cids, dead_links, data_only })
             .boxed()
     }
 
@@ -293,6 +299,11 @@ impl Check for CommandScope {
             .iter()
             .map(|e| {
                 let (tx, rx) = mpsc_unbounded();
+                if case.data_only & (1 << e.key.index()) != 0 {
+                    drop(tx);
+                    receivers.push(rx);
+                    return (e.value, None);
+                }
                 if !case.close_positions && case.dead_links & (1 << e.key.index()) != 0 {
                     // dead link: the engine's transmitter belongs to a channel whose receiver is gone
                     let (dead_tx, dead_rx) = mpsc_unbounded();
@@ -568,6 +579,7 @@ fn classify_scope(rep: &mut CaseReport, case: &ScopeCase, n_match: usize, n_tota
     rep.class_if(both_kinds_in_one, "cancellable_and_cancel_in_flight_together");
     rep.class_if(pos_with_and_without_price.0 && pos_with_and_without_price.1, "position_with_and_without_price");
     rep.class_if(case.dead_links != 0 && !case.close_positions, "cancel_orders_with_a_dead_link");
+    rep.class_if((0..7).any(|e| case.data_only & (1 << e) != 0 && case.data_only & (1 << (e + 1)) == 0 && (e + 1) < crate::props::world::index(&case.defs).exchanges().len()), "data_only_exchange_before_a_traded_one");
     rep.nontrivial = strict_subset && (both_kinds_in_one || (pos_with_and_without_price.0 && pos_with_and_without_price.1));
 }
 
